@@ -141,8 +141,16 @@ def _entry_points(repo: Repo) -> tuple[list[FuncInfo], bool, str]:
 def _query_call(fn: Fn, c: ast.Call, ev: str) -> bool:
     """Is `c` a call of one of the three public graph queries on the evaluable parameter (directly or through a local alias)?"""
 
+    def is_ev(e: ast.AST) -> bool:
+        if isinstance(e, ast.Name) and e.id == ev:
+            return True
+        if isinstance(e, ast.Name) and parent(e) is not None:  # local alias of the evaluable
+            x = fn.expand(e)
+            return isinstance(x, ast.Name) and x.id == ev
+        return False
+
     def is_q(e: ast.AST) -> bool:
-        return isinstance(e, ast.Attribute) and e.attr in QUERIES and isinstance(e.value, ast.Name) and e.value.id == ev
+        return isinstance(e, ast.Attribute) and e.attr in QUERIES and is_ev(e.value)
 
     if is_q(c.func):
         return True
@@ -556,6 +564,7 @@ def run_r2(repo: Repo, res: Result) -> None:
         bad.append(f"elements are taken out of the result again (`{show(r_.node, 70)}`)")
     n1 = 0
     scan_loops: list[ast.AST] = []
+    sites: dict[int, ast.AST] = {}  # loop inside a generator helper -> statement of the view that runs it
     for c in k1:
         m = matched_pair(fn, c, modules_p, arch_p)
         key = repo.key(view, stmt_of(c.node)) + " [pattern x module]" if c.node is not None and parent(c.node) is not None else base + "name filter of a match"
@@ -568,6 +577,8 @@ def run_r2(repo: Repo, res: Result) -> None:
             for b in c.binders:
                 if isinstance(b.loop, (ast.For, ast.AsyncFor)) and b.loop not in scan_loops:
                     scan_loops.append(b.loop)
+                    if b.site is not None:
+                        sites[id(b.loop)] = stmt_of(b.site)
         n1 += 1
         res.add("C11.R2", key, ok, "a name filter is added exactly for the pairs (regex filter, module) with re.match(pattern, module name)" if ok else f"`{show(c.node, 70)}`: {why}: a regex no longer stands for exactly the modules re.match(pattern, name) selects", where(view, c.node if c.node is not None else ret), kind="dominance")
     early = [x for lp in scan_loops for x in ast.walk(lp) if isinstance(x, (ast.Break, ast.Return))]
@@ -585,7 +596,7 @@ def run_r2(repo: Repo, res: Result) -> None:
     res.add("C11.R2", base + "result = converted + others", ok2, "result is the converted filters plus the non-regex filters unchanged" if ok2 else f"{why2}: the conversion result is not `name filters of all matches + other filters unchanged`", where(view, ret), kind="structural")
     # ---- a regex that matches nothing raises before anything is returned
     raises = [s for s in own_nodes(view.node) if isinstance(s, ast.Raise) and s.exc is not None and _raised_class(fn, s.exc).endswith(".ImpossibleMatch")]
-    ok, why = _no_match_raises(repo, view, fn, co, raises, ret, scan_loops, modules_p, arch_p)
+    ok, why = _no_match_raises(repo, view, fn, co, raises, ret, [sites.get(id(lp), lp) for lp in scan_loops], modules_p, arch_p)
     if ok is None:
         res.undecide("C11.R2", base + "no-match raises", why, where(view, raises[0] if raises else view.node))
     else:
@@ -982,7 +993,7 @@ def run_r4(repo: Repo, res: Result) -> None:
             if c.value is None:
                 bad.append(f"`{norm(c.node, 60)}` does not store a search result under a key")
                 continue
-            for cand in _value_candidates(fn, c.value):
+            for cand in _value_candidates(fn, _strip_copies(c.value)):
                 call = _strip_copies(cand)
                 searches_in = [x for x in ast.walk(cand) if isinstance(x, ast.Call) and (lambda cs: bool(cs) and all(f.module.name == SEARCHES for f in cs))(fn.callees(x)[0])]
                 if not searches_in:
